@@ -33,8 +33,8 @@ coverage_extra = C04.coverage_extra
 
 
 def bounds(tier: str) -> Dict[str, Any]:
-    return {"messages": "M = 3 quick / 4 thorough, all kind sequences", "A": "None or unbounded Int >= 1", "P": "unbounded Int >= 0",
-            "N": "None or unbounded Int >= 1", "environment choices": "K = 6 quick / 7 thorough, then deterministic drain"}
+    return {"messages": "M = 3 quick / 4 thorough, all kind sequences", "A": "None, unbounded Int >= 1, or any Int (<= 0 means unlimited)", "P": "unbounded Int >= 0",
+            "N": "None, unbounded Int >= 1, or Int >= 0 (0 disables the quota)", "environment choices": "K = 6 quick / 7 thorough, then deterministic drain"}
 
 
 def cases(tier: str) -> List[Any]:
@@ -42,10 +42,10 @@ def cases(tier: str) -> List[Any]:
     M = 3 if tier == "quick" else 4
     K = 6 if tier == "quick" else 7
     depth = 2 if tier == "quick" else 4
-    for cfg in ("A", "AN", "noneA", "end"):
-        for k0 in ("valid", "malformed", "unknown", "malformed_raw"):
+    for cfg in ("A", "AN", "noneA", "end", "anyA"):
+        for k0 in ("valid", "malformed", "unknown", "malformed_raw") if cfg != "anyA" else ("valid",):
             for prefix in itertools.product(range(3), repeat=depth):
-                out.append({"M": M, "K": K, "cfg": cfg, "k0": k0, "prefix": list(prefix)})
+                out.append({"M": M, "K": K - 1 if cfg == "anyA" else K, "cfg": cfg, "k0": k0, "prefix": list(prefix)})
     # a task that becomes known while the worker runs: messages before the registration are skipped, later ones are executed
     for first in range(4):
         out.append({"M": 3, "K": 6 if tier == "quick" else 7, "cfg": "A", "k0": "late_task", "prefix": [first], "late": True})
@@ -64,8 +64,8 @@ def harness(c: sym.Ctx, case: Dict[str, Any]) -> None:
     else:
         kinds = [case["k0"]] + [c.choose(("valid", "unknown", "malformed_raw") if case["M"] <= 3 and not case.get("preempt") else ("valid", "malformed_raw", "empty"), f"kind{k}") for k in range(1, M)]
     cfg = case["cfg"]
-    spec = {"M": M, "kinds": kinds, "outcomes": ["return"] * M, "A": "none" if cfg == "noneA" else "sym", "P": "sym",
-            "N": "sym" if cfg == "AN" else "none", "wtt": None, "K": case["K"], "prefix": case["prefix"], "stream_end": cfg == "end", "preempt": case.get("preempt", 0)}
+    spec = {"M": M, "kinds": kinds, "outcomes": ["return"] * M, "A": "none" if cfg == "noneA" else ("any" if cfg == "anyA" else "sym"), "P": "sym",
+            "N": "sym" if cfg == "AN" else ("sym0" if cfg == "anyA" else "none"), "wtt": None, "K": case["K"], "prefix": case["prefix"], "stream_end": cfg == "end", "preempt": case.get("preempt", 0)}
     r = _listen.run(c, spec)
     check_exactly_once(c, r, kinds)
     for k in kinds:
